@@ -513,16 +513,9 @@ func c16MergeCheck(in modInput) string {
 			if !inFiles {
 				continue
 			}
-			words := strings.Fields(e.Msg)
-			hit := false
-			for _, w := range words {
-				if w == cf.Name {
-					hit = true
-				}
-			}
-			if cf.Type != "" && !strings.Contains(e.Msg, "type "+cf.Type) {
-				hit = false
-			}
+			// exactly one conflict is injected in this sub-check, so every error in an offending file is about it
+			// (no parsing of message texts)
+			hit := true
 			if hit {
 				mine = append(mine, e)
 			}
